@@ -383,6 +383,44 @@ func stageBuilders(r *Run) (map[string]map[string]types.Type, bool) {
 			unknown = append(unknown, u2...)
 		}
 		o := r.Ob("LP-BUILD", "buildStage["+arm.TypeName+"]", "the processor types built for this stage are statically known")
+		// the stage's processor is what its builder returned: buildStage does not put anything
+		// of its own between the pipeline and the stage (a wrapper changes when the stage's
+		// verdict counts)
+		wrapped := ""
+		seenB := map[*ssa.BasicBlock]bool{}
+		var scan func(b *ssa.BasicBlock)
+		scan = func(b *ssa.BasicBlock) {
+			if seenB[b] || wrapped != "" {
+				return
+			}
+			seenB[b] = true
+			for _, in := range b.Instrs {
+				if ta, ok := in.(*ssa.TypeAssert); ok && ta.CommaOk && b != arm.Block {
+					return // next arm of the switch
+				}
+				if ret, ok := in.(*ssa.Return); ok && len(ret.Results) == 2 {
+					for _, lv := range phiLeaves(ret.Results[0]) {
+						if isNilConst(lv) {
+							continue
+						}
+						if _, _, ok := extractOf(lv); ok {
+							continue
+						}
+						if mi, ok := lv.(*ssa.MakeInterface); ok && found {
+							wrapped = typeKey(mi.X.Type())
+						}
+					}
+				}
+			}
+			for _, s2 := range b.Succs {
+				scan(s2)
+			}
+		}
+		scan(arm.Block)
+		if wrapped != "" {
+			o.Fail(r.pos(arm.Assert.Pos()), "buildStage calls the stage's builder but returns a %s of its own: the stage's processor is wrapped, so its verdict no longer decides alone", wrapped)
+			continue
+		}
 		if !found || len(unknown) > 0 || len(typs) == 0 {
 			o.Undecide(r.pos(arm.Assert.Pos()), "cannot resolve built processor types (found=%v unknown=%v)", found, unknown)
 			continue
